@@ -936,7 +936,8 @@ def is_categorical(a):
     if isinstance(a, pd.core.base.PandasObject):
         return isinstance(a.dtype, pd.CategoricalDtype) or "dictionary" in str(a.dtype)
     elif isinstance(a, pl.Series):
-        return a.dtype == pl.Categorical
+        # Enum is polars' categorical type with a declared category order
+        return a.dtype == pl.Categorical or isinstance(a.dtype, pl.Enum)
     elif isinstance(a, pa.ChunkedArray):
         return isinstance(a.chunks[0], pa.DictionaryArray)
     else:
